@@ -1,6 +1,6 @@
 (* C04 — theorems (statements only; proofs in Proofs*.v). *)
 From Coq Require Import NArith List Bool.
-From LTV.C04 Require Import ParamsGen Model Proofs ProofsTrace ProofsVoid ProofsLive ProofsSlots ProofsEndgame ProofsFair.
+From LTV.C04 Require Import ParamsGen Model Proofs ProofsTrace ProofsVoid ProofsLive ProofsSlots ProofsEndgame ProofsFair ProofsReissue.
 Import ListNotations.
 Open Scope N_scope.
 
@@ -239,6 +239,105 @@ Theorem eventually_requested : forall y p c i o l,
              memN i (s_active (x_s (y_x y'))) = true.
 Proof. exact ProofsFair.eventually_requested. Qed.
 Print Assumptions eventually_requested.
+
+(* ---- (F4) as theorems: the holder of the block is voided by CHOKE + the 6 s timer, or by a disconnect, and the block is
+   re-issued at another connection q within a bounded number of accepted steps of the FULL acceptor (yaccept).
+   The explicit fair trace is the list in the conclusion: the peer's CHOKE, the delay_remove_choked timer, then the three
+   client-internal steps of eventually_requested at q. Needs repair (D) (choke_checks_stalled, present: fixes_present_now).
+   Still hypotheses: (F1) scheduler fairness, (F2) environment stability, (F3) dint. The stall path of (F4) follows below
+   (reissued_after_stall). ---- *)
+Theorem choke_timer_frees_block : choke_checks_stalled = true ->
+  forall s p c s1 s2 i o, get_conn s p = Some c -> c_t c = None ->
+  accept s (Choke p) = Some s1 -> accept s1 (DropChoked p) = Some s2 ->
+  not_stalled s i o = not_stalled_in c i o ->
+  not_stalled s2 i o = 0 /\
+  (forall q, p <> q -> get_conn s2 q = get_conn s q) /\
+  s_completed s2 = s_completed s /\ s_active s2 = s_active s /\ s_fin s2 = s_fin s /\ s_wanted s2 = s_wanted s /\
+  s_plen s2 = s_plen s /\ s_total s2 = s_total s /\ s_aggr s2 = s_aggr s.
+Proof. exact ProofsReissue.choke_timer_frees_block. Qed.
+Print Assumptions choke_timer_frees_block.
+
+Theorem reissued_after_choke_timeout : choke_checks_stalled = true ->
+  forall y p cp q cq i o l,
+  let x := y_x y in let s := x_s x in
+  p <> q -> get_conn s p = Some cp -> c_t cp = None ->
+  not_stalled s i o = not_stalled_in cp i o ->
+  get_conn s q = Some cq ->
+  c_unchoked cq = true -> getb (c_have cq) i = true -> getb (s_completed s) i = false ->
+  (memN i (s_active s) = true \/ getb (s_wanted s) i = true) ->
+  dint x q = true -> dq x q = true ->
+  valid_block s i o l = true -> mem_blk i o (s_fin s) = false -> holds cq i o = false -> listed_any cq i o = false ->
+  (q < length (x_dl x))%nat -> (q < length (y_du y))%nat ->
+  exists y', yrun y [Choke p; DropChoked p; QueueUnchoke q; SInterested q; SRequest q i o l] = Some y' /\
+             memN i (s_active (x_s (y_x y'))) = true.
+Proof. exact ProofsReissue.reissued_after_choke_timeout. Qed.
+Print Assumptions reissued_after_choke_timeout.
+
+Theorem reissued_after_disconnect : forall y p cp q cq i o l,
+  let x := y_x y in let s := x_s x in
+  p <> q -> get_conn s p = Some cp ->
+  not_stalled s i o = not_stalled_in cp i o ->
+  get_conn s q = Some cq ->
+  c_unchoked cq = true -> getb (c_have cq) i = true -> getb (s_completed s) i = false ->
+  (memN i (s_active s) = true \/ getb (s_wanted s) i = true) ->
+  dint x q = true -> dq x q = true ->
+  valid_block s i o l = true -> mem_blk i o (s_fin s) = false -> holds cq i o = false -> listed_any cq i o = false ->
+  (q < length (x_dl x))%nat -> (q < length (y_du y))%nat ->
+  exists y', yrun y [Disc p; QueueUnchoke q; SInterested q; SRequest q i o l] = Some y' /\
+             memN i (s_active (x_s (y_x y'))) = true.
+Proof. exact ProofsReissue.reissued_after_disconnect. Qed.
+Print Assumptions reissued_after_disconnect.
+
+(* stall path of (F4): the stall tick (stall_initial / stall_prolonged, StallTick p true) on the only holder p frees the block;
+   4 accepted steps to the REQUEST at q. Hypothesis stalled_ok cp (a valid entry of p's stalled bucket carries the stalled
+   mark: what the stall ticks themselves establish) is a state predicate here; stalled_ok_reachable below proves it for
+   every state reached by an accepted trace (reissued_after_stall_reachable). *)
+Theorem stall_frees_block : forall s p c s' i o, get_conn s p = Some c -> c_c c = [] -> stalled_ok c ->
+  accept s (StallTick p true) = Some s' ->
+  not_stalled s i o = not_stalled_in c i o ->
+  not_stalled s' i o = 0 /\
+  (forall q, p <> q -> get_conn s' q = get_conn s q) /\
+  s_completed s' = s_completed s /\ s_active s' = s_active s /\ s_fin s' = s_fin s /\ s_wanted s' = s_wanted s /\
+  s_plen s' = s_plen s /\ s_total s' = s_total s /\ s_aggr s' = s_aggr s.
+Proof. exact ProofsReissue.stall_frees_block. Qed.
+Print Assumptions stall_frees_block.
+
+Theorem reissued_after_stall : forall y p cp q cq i o l,
+  let x := y_x y in let s := x_s x in
+  p <> q -> get_conn s p = Some cp -> c_c cp = [] -> stalled_ok cp ->
+  not_stalled s i o = not_stalled_in cp i o ->
+  get_conn s q = Some cq ->
+  c_unchoked cq = true -> getb (c_have cq) i = true -> getb (s_completed s) i = false ->
+  (memN i (s_active s) = true \/ getb (s_wanted s) i = true) ->
+  dint x q = true -> dq x q = true ->
+  valid_block s i o l = true -> mem_blk i o (s_fin s) = false -> holds cq i o = false -> listed_any cq i o = false ->
+  (q < length (x_dl x))%nat -> (q < length (y_du y))%nat ->
+  exists y', yrun y [StallTick p true; QueueUnchoke q; SInterested q; SRequest q i o l] = Some y' /\
+             memN i (s_active (x_s (y_x y'))) = true.
+Proof. exact ProofsReissue.reissued_after_stall. Qed.
+Print Assumptions reissued_after_stall.
+
+(* stalled_ok is an invariant of every accepted trace, so the hypothesis disappears for reachable states *)
+Theorem stalled_ok_reachable : forall plen total comp w evs y p cp,
+  yrun (yinit plen total comp w) evs = Some y -> get_conn (x_s (y_x y)) p = Some cp -> stalled_ok cp.
+Proof. exact ProofsReissue.stalled_ok_reachable. Qed.
+Print Assumptions stalled_ok_reachable.
+
+Theorem reissued_after_stall_reachable : forall plen total comp w evs y p cp q cq i o l,
+  yrun (yinit plen total comp w) evs = Some y ->
+  let x := y_x y in let s := x_s x in
+  p <> q -> get_conn s p = Some cp -> c_c cp = [] ->
+  not_stalled s i o = not_stalled_in cp i o ->
+  get_conn s q = Some cq ->
+  c_unchoked cq = true -> getb (c_have cq) i = true -> getb (s_completed s) i = false ->
+  (memN i (s_active s) = true \/ getb (s_wanted s) i = true) ->
+  dint x q = true -> dq x q = true ->
+  valid_block s i o l = true -> mem_blk i o (s_fin s) = false -> holds cq i o = false -> listed_any cq i o = false ->
+  (q < length (x_dl x))%nat -> (q < length (y_du y))%nat ->
+  exists y', yrun y [StallTick p true; QueueUnchoke q; SInterested q; SRequest q i o l] = Some y' /\
+             memN i (s_active (x_s (y_x y'))) = true.
+Proof. exact ProofsReissue.reissued_after_stall_reachable. Qed.
+Print Assumptions reissued_after_stall_reachable.
 
 Theorem params_ok_now : params_ok = true.
 Proof. exact Proofs.params_ok_now. Qed.
